@@ -115,7 +115,8 @@ fn check_layout(t: &mut Tally, scratch: &Path, id: usize, l: &Layout) {
         let db = PkgDB::open(&root).map_err(|e| e.to_string())?;
         let mut seen: Vec<(String, String, String, Vec<Result<String, String>>)> = vec![];
         for p in db {
-            let p = p.map_err(|e| e.to_string())?;
+            // an iterator may report an entry it cannot examine (a dangling link) as an Err item and go on
+            let Ok(p) = p else { continue };
             let reads: Vec<Result<String, String>> = (0..14).map(|i| p.read_metadata(meta_entry(i)).map_err(|e| e.kind().to_string())).collect();
             seen.push((p.pkgname().clone(), p.pkgbase().clone(), p.pkgversion().clone(), reads));
         }
@@ -174,7 +175,7 @@ fn check_layout(t: &mut Tally, scratch: &Path, id: usize, l: &Layout) {
 /// one incomplete directory and one stray file: every complete directory is listed once with
 /// pkgbase / pkgversion split at the last '-', and its +DESC reads back.
 /// Metadata file contents of several shapes, chosen by the name's position: the usual two lines,
-/// empty, one byte, no final newline, CR LF line ends, 8191 / 8192 / 8193 bytes, 1 MiB, non-ASCII.
+/// empty, one byte, no final newline, CR LF line ends, 8191 / 8192 / 8193 bytes, 256 KiB, non-ASCII.
 fn shaped_content(k: usize, dir: &str, file: &str) -> String {
     match k % 10 {
         0 => content(dir, file),
@@ -186,8 +187,18 @@ fn shaped_content(k: usize, dir: &str, file: &str) -> String {
         6 => format!("{}\n", "d".repeat(8191)),
         7 => "e".repeat(8193),
         8 => format!("{} {}\n", file, "\u{e9}\u{65e5}\u{1f600}".repeat(40)),
-        _ => "m\n".repeat(512 * 1024),
+        _ => "m\n".repeat(128 * 1024),
     }
+}
+
+/// Length and a 64-bit FNV-1a digest of a content (large contents are not kept in memory).
+fn digest_of(s: &str) -> String {
+    let mut h: u64 = 0xcbf29ce484222325;
+    for b in s.as_bytes() {
+        h ^= *b as u64;
+        h = h.wrapping_mul(0x100000001b3);
+    }
+    format!("{} bytes, fnv {:016x}", s.len(), h)
 }
 
 /// A large database: `n` complete packages with numbered names and contents of every shape,
@@ -224,8 +235,9 @@ fn check_large(t: &mut Tally, scratch: &Path, n: usize) {
         let db = PkgDB::open(&root).map_err(|e| e.to_string())?;
         let mut seen: Vec<(String, String, String, Vec<Result<String, String>>)> = vec![];
         for p in db {
-            let p = p.map_err(|e| e.to_string())?;
-            let reads = [MetadataEntry::Comment, MetadataEntry::Contents, MetadataEntry::Desc].into_iter().map(|e| p.read_metadata(e).map_err(|e| e.kind().to_string())).collect();
+            // an iterator may report an entry it cannot examine as an Err item and go on
+            let Ok(p) = p else { continue };
+            let reads = [MetadataEntry::Comment, MetadataEntry::Contents, MetadataEntry::Desc].into_iter().map(|e| p.read_metadata(e).map(|c| digest_of(&c)).map_err(|e| e.kind().to_string())).collect();
             seen.push((p.pkgname().clone(), p.pkgbase().clone(), p.pkgversion().clone(), reads));
         }
         seen.sort();
@@ -237,7 +249,7 @@ fn check_large(t: &mut Tally, scratch: &Path, n: usize) {
         .map(|k| {
             let name = name_of(k);
             let i = name.rfind('-').unwrap();
-            let reads = MANDATORY.iter().enumerate().map(|(fi, f)| Ok(shaped_content(k + fi, &name, f))).collect();
+            let reads = MANDATORY.iter().enumerate().map(|(fi, f)| Ok(digest_of(&shaped_content(k + fi, &name, f)))).collect();
             (name.clone(), name[..i].to_string(), name[i + 1..].to_string(), reads)
         })
         .collect();
@@ -249,7 +261,7 @@ fn check_large(t: &mut Tally, scratch: &Path, n: usize) {
         }
         Ok(Ok(seen)) => {
             let first = seen.iter().zip(want.iter()).position(|(a, b)| a != b).unwrap_or(seen.len().min(want.len()));
-            let brief = |v: &Vec<(String, String, String, Vec<Result<String, String>>)>| v.get(first).map(|x| format!("{} / {} / {} / contents of {:?} bytes", x.0, x.1, x.2, x.3.iter().map(|r| r.as_ref().map(|s| s.len()).map_err(|e| e.clone())).collect::<Vec<_>>()));
+            let brief = |v: &Vec<(String, String, String, Vec<Result<String, String>>)>| v.get(first).map(|x| format!("{} / {} / {} / contents of {:?} bytes", x.0, x.1, x.2, x.3.iter().map(|r| r.as_ref().map(|s| s.clone()).map_err(|e| e.clone())).collect::<Vec<_>>()));
             t.violation(Violation::new("large", case(), json!({"packages": want.len(), "first_difference": brief(&want)}), json!({"packages": seen.len(), "first_difference": brief(&seen)}), "every complete directory once, correctly split, each '+FILE' read back whole whatever its size or line ends"));
         }
         other => t.violation(Violation::new("large", case(), json!(format!("{} packages", want.len())), json!(format!("{:?}", other.map(|r| r.map(|v| v.len())))), "iterating a large database failed")),
@@ -270,7 +282,9 @@ fn check_reiterate(t: &mut Tally, scratch: &Path, id: usize) {
     let list = |root: &Path| -> Result<Vec<String>, String> {
         let mut v = vec![];
         for p in PkgDB::open(root).map_err(|e| e.to_string())? {
-            v.push(p.map_err(|e| e.to_string())?.pkgname().clone());
+            if let Ok(p) = p {
+                v.push(p.pkgname().clone());
+            }
         }
         v.sort();
         Ok(v)
@@ -282,12 +296,13 @@ fn check_reiterate(t: &mut Tally, scratch: &Path, id: usize) {
             for (k, f) in MANDATORY.iter().enumerate() {
                 if complete || k != id % 3 {
                     std::fs::write(d.join(f), content(n, f))?;
-                    set_time(&d.join(f))?;
+                    let _ = set_time(&d.join(f));
                 }
             }
-            set_time(&d)?;
+            let _ = set_time(&d);
         }
-        set_time(&root)
+        let _ = set_time(&root);
+        Ok(())
     })();
     if built.is_err() {
         mc_core::run::machinery_fault("cannot build the scratch database");
@@ -295,16 +310,18 @@ fn check_reiterate(t: &mut Tally, scratch: &Path, id: usize) {
     let r = guard(|| -> Result<(Vec<String>, Vec<String>, Vec<String>), String> {
         let first = list(&root)?;
         // alpha loses a mandatory file, gamma gains its missing one, delta's +DESC becomes a dangling link
+        // (a failure to change the scratch tree is a machinery fault, not a verdict)
         let miss = MANDATORY[id % 3];
-        std::fs::remove_file(root.join("alpha-1.0").join(miss)).map_err(|e| e.to_string())?;
-        std::fs::write(root.join("gamma-3.0").join(miss), content("gamma-3.0", miss)).map_err(|e| e.to_string())?;
-        std::fs::remove_file(root.join("delta-4.0").join("+DESC")).map_err(|e| e.to_string())?;
-        std::os::unix::fs::symlink("no-such-target", root.join("delta-4.0").join("+DESC")).map_err(|e| e.to_string())?;
+        let io = |e: std::io::Error| -> ! { mc_core::run::machinery_fault(&format!("cannot change the scratch database: {}", e)) };
+        std::fs::remove_file(root.join("alpha-1.0").join(miss)).unwrap_or_else(|e| io(e));
+        std::fs::write(root.join("gamma-3.0").join(miss), content("gamma-3.0", miss)).unwrap_or_else(|e| io(e));
+        std::fs::remove_file(root.join("delta-4.0").join("+DESC")).unwrap_or_else(|e| io(e));
+        std::os::unix::fs::symlink("no-such-target", root.join("delta-4.0").join("+DESC")).unwrap_or_else(|e| io(e));
         for n in ["alpha-1.0", "gamma-3.0", "delta-4.0"] {
             let _ = set_time(&root.join(n).join(miss));
-            set_time(&root.join(n)).map_err(|e| e.to_string())?;
+            let _ = set_time(&root.join(n));
         }
-        set_time(&root).map_err(|e| e.to_string())?;
+        let _ = set_time(&root);
         let second = list(&root)?;
         let third = list(&root)?;
         Ok((first, second, third))
@@ -327,33 +344,45 @@ fn check_names(t: &mut Tally, scratch: &Path, id: usize, names: &[String]) {
     let case = || json!({"complete_directories": names});
     let root = scratch.join(format!("names{}", id));
     let _ = std::fs::remove_dir_all(&root);
-    let built = (|| -> std::io::Result<()> {
-        std::fs::create_dir_all(&root)?;
-        for n in names {
-            let d = root.join(n);
-            std::fs::create_dir_all(&d)?;
-            for f in MANDATORY {
-                std::fs::write(d.join(f), content(n, f))?;
-            }
+    let fault = |what: &str, e: std::io::Error| -> ! { mc_core::run::machinery_fault(&format!("cannot build the scratch database ({}): {}", what, e)) };
+    if let Err(e) = std::fs::create_dir_all(&root) {
+        fault("root", e);
+    }
+    // a name the file system refuses (invalid argument, too long) is not a case; the set goes on
+    // without it.  Any other failure is a machinery fault.
+    let mut names: Vec<String> = names.to_vec();
+    names.retain(|n| {
+        let d = root.join(n);
+        match std::fs::create_dir_all(&d) {
+            Ok(()) => true,
+            Err(e) if matches!(e.raw_os_error(), Some(22) | Some(36) | Some(84)) => false, // EINVAL ENAMETOOLONG EILSEQ
+            Err(e) => fault("package directory", e),
         }
-        std::fs::create_dir_all(root.join("incomplete-1.0"))?;
-        std::fs::write(root.join("incomplete-1.0").join("+DESC"), b"x")?;
-        std::fs::write(root.join("stray-file-1.0"), b"x")?;
-        // files whose names are not UTF-8, next to the mandatory files of the first package and
-        // in the database directory itself: they are not packages and do not un-make one
-        use std::os::unix::ffi::OsStrExt;
-        if let Some(n) = names.first() {
-            std::fs::write(root.join(n).join(std::ffi::OsStr::from_bytes(b"stray-\xff")), b"x")?;
-            std::fs::write(root.join(n).join(std::ffi::OsStr::from_bytes(b"+\xe9XTRA")), b"x")?;
-        }
-        std::fs::write(root.join(std::ffi::OsStr::from_bytes(b"stray-\xfe-1.0")), b"x")?;
-        Ok(())
-    })();
-    if built.is_err() {
-        // a name the file system refuses is not a case
+    });
+    if names.is_empty() {
         let _ = std::fs::remove_dir_all(&root);
         t.outcome("names/not-creatable");
         return;
+    }
+    let names = &names[..];
+    for n in names {
+        for f in MANDATORY {
+            if let Err(e) = std::fs::write(root.join(n).join(f), content(n, f)) {
+                fault("mandatory file", e);
+            }
+        }
+    }
+    if let Err(e) = std::fs::create_dir_all(root.join("incomplete-1.0")).and_then(|_| std::fs::write(root.join("incomplete-1.0").join("+DESC"), b"x")).and_then(|_| std::fs::write(root.join("stray-file-1.0"), b"x")) {
+        fault("strays", e);
+    }
+    // files whose names are not UTF-8, next to the mandatory files of the first package and in the
+    // database directory itself: they are not packages and do not un-make one (best effort: a
+    // file system that refuses such names simply has none)
+    {
+        use std::os::unix::ffi::OsStrExt;
+        let _ = std::fs::write(root.join(&names[0]).join(std::ffi::OsStr::from_bytes(b"stray-\xff")), b"x");
+        let _ = std::fs::write(root.join(&names[0]).join(std::ffi::OsStr::from_bytes(b"+\xe9XTRA")), b"x");
+        let _ = std::fs::write(root.join(std::ffi::OsStr::from_bytes(b"stray-\xfe-1.0")), b"x");
     }
     let mut reread: Option<(String, String, String)> = None;
     let got = guard(|| {
@@ -361,23 +390,33 @@ fn check_names(t: &mut Tally, scratch: &Path, id: usize, names: &[String]) {
         let mut seen: Vec<(String, String, String, Result<String, String>)> = vec![];
         let mut handles = vec![];
         for p in db {
-            let p = p.map_err(|e| e.to_string())?;
+            let Ok(p) = p else { continue };
             let desc = p.read_metadata(MetadataEntry::Desc).map_err(|e| e.kind().to_string());
             seen.push((p.pkgname().clone(), p.pkgbase().clone(), p.pkgversion().clone(), desc));
             handles.push(p);
         }
-        // the file is what it is *now*: rewrite +DESC in place (same length, modification time put
-        // back, as cp -p / rsync -t would) and read it again through the same package handle
+        // rewrite +DESC in place (same length, modification time put back, as cp -p / rsync -t
+        // would).  Through the handle obtained before the rewrite either content is admissible
+        // (the statement is about a tree that holds still); a package obtained by a fresh
+        // iteration afterwards must see the file as it is now.
         for p in handles.iter().take(3) {
             let path = root.join(p.pkgname()).join("+DESC");
-            let old = std::fs::read_to_string(&path).map_err(|e| e.to_string())?;
-            let mtime = std::fs::metadata(&path).and_then(|m| m.modified()).map_err(|e| e.to_string())?;
+            let io = |e: std::io::Error| -> String { mc_core::run::machinery_fault(&format!("cannot rewrite a scratch file: {}", e)) };
+            let old = std::fs::read_to_string(&path).unwrap_or_else(io);
+            let mtime = std::fs::metadata(&path).and_then(|m| m.modified()).unwrap_or_else(|e| mc_core::run::machinery_fault(&format!("cannot stat a scratch file: {}", e)));
             let new: String = old.chars().map(|c| if c.is_ascii_lowercase() { c.to_ascii_uppercase() } else { c }).collect();
-            std::fs::write(&path, &new).map_err(|e| e.to_string())?;
-            std::fs::File::options().write(true).open(&path).and_then(|f| f.set_modified(mtime)).map_err(|e| e.to_string())?;
+            if let Err(e) = std::fs::write(&path, &new) {
+                mc_core::run::machinery_fault(&format!("cannot rewrite a scratch file: {}", e));
+            }
+            // (a file system that cannot set times: the rewrite alone is the change)
+            let _ = std::fs::File::options().write(true).open(&path).and_then(|f| f.set_modified(mtime));
             let again = p.read_metadata(MetadataEntry::Desc).map_err(|e| e.kind().to_string());
-            if again.as_deref() != Ok(new.as_str()) && reread.is_none() {
-                reread = Some((p.pkgname().clone(), new.clone(), format!("{:?}", again)));
+            if again.as_deref() != Ok(new.as_str()) && again.as_deref() != Ok(old.as_str()) && reread.is_none() {
+                reread = Some((p.pkgname().clone(), format!("{:?} or {:?}", new, old), format!("{:?}", again)));
+            }
+            let fresh = PkgDB::open(&root).map_err(|e| e.to_string())?.flatten().find(|q| q.pkgname() == p.pkgname()).map(|q| q.read_metadata(MetadataEntry::Desc).map_err(|e| e.kind().to_string()));
+            if fresh.as_ref().map(|r| r.as_deref()) != Some(Ok(new.as_str())) && reread.is_none() {
+                reread = Some((p.pkgname().clone(), new.clone(), format!("through a fresh iteration: {:?}", fresh)));
             }
         }
         seen.sort();
@@ -385,7 +424,7 @@ fn check_names(t: &mut Tally, scratch: &Path, id: usize, names: &[String]) {
     });
     let _ = std::fs::remove_dir_all(&root);
     if let Some((pkg, want, got)) = reread {
-        t.violation(Violation::new("names", case(), json!({"package": pkg, "+DESC now": want}), json!(got), "reading a metadata entry returns the file's content as it is now, also on a second read through the same handle after the file was rewritten in place"));
+        t.violation(Violation::new("names", case(), json!({"package": pkg, "+DESC now": want}), json!(got), "reading a metadata entry returns the file's content (after an in-place rewrite: the new content through a fresh iteration, the old or the new through the earlier handle)"));
         return;
     }
     let mut want: Vec<(String, String, String, Result<String, String>)> = names
